@@ -91,7 +91,7 @@ def build(R, repo, builddir):
 
 
 def parse_cfg(s):
-    cfg = dict(relay='none', ip='v4', databytes='0', port='25', users='cdb', qq='', auth='0')
+    cfg = dict(relay='none', ip='v4', databytes='0', port='25', users='cdb', qq='', auth='0', check2822='0')
     for kv in s.split(';'):
         if '=' in kv:
             k, v = kv.split('=', 1)
@@ -106,6 +106,8 @@ def make_tree(d, cfg):
     open(os.path.join(d, 'control', 'me'), 'w').write('mail.example.org\n')
     open(os.path.join(d, 'control', 'timeoutsmtpd'), 'w').write('1000\n')
     open(os.path.join(d, 'control', 'rcpthosts'), 'w').write('example.org\n.sub.example.org\n')
+    if cfg['check2822'] == '1':
+        open(os.path.join(d, 'control', 'filterconf'), 'w').write('check_strict_rfc2822\n')
     if cfg['databytes'] != '0':
         open(os.path.join(d, 'control', 'databytes'), 'w').write(cfg['databytes'] + '\n')
     r = cfg['relay']
@@ -235,6 +237,21 @@ def run_case(h, R, line, idx):
                     if early:
                         t_end = time.time() + 3
                         while _children(p.pid) and time.time() < t_end:
+                            time.sleep(0.0005)
+                    elif pl.startswith('ce:'):
+                        # the stand-in closes its envelope descriptor first thing: wait until it has done so (or is gone),
+                        # otherwise "did the envelope still fit into the pipe before the close" would be a race
+                        t_end = time.time() + 3
+                        while time.time() < t_end:
+                            ch = _children(p.pid)
+                            if not ch:
+                                break
+                            try:
+                                exe = os.readlink('/proc/%s/exe' % ch[0])
+                                if exe.endswith('qq_standin') and not os.path.exists('/proc/%s/fd/1' % ch[0]):
+                                    break
+                            except OSError:
+                                pass
                             time.sleep(0.0005)
                 try:
                     a.setblocking(True)
